@@ -22,8 +22,8 @@ use std::task::{Context, Poll};
 use std::time::Duration;
 
 /// periods in nanoseconds: whole milliseconds, fractional milliseconds, sub-millisecond, whole seconds a period with a
-/// nanosecond part and the zero period (the timer must be asked for exactly the period, whatever its unit)
-pub const PERIODS_NS: [u64; 9] = [10_000_000, 10_000_000, 15_000_000, 7_000_000, 30_000_000, 2_750_000, 999_000, 1_000_000_007, 0];
+/// nanosecond part, the zero period and one nanosecond (far below any real latency: nothing may depend on the wall clock) (the timer must be asked for exactly the period, whatever its unit)
+pub const PERIODS_NS: [u64; 10] = [10_000_000, 10_000_000, 15_000_000, 7_000_000, 30_000_000, 2_750_000, 999_000, 1_000_000_007, 0, 1];
 
 #[derive(Clone, Copy, Debug, Serialize, Deserialize, PartialEq, Eq)]
 pub enum SpawnPlan {
